@@ -62,15 +62,22 @@ def _pool(seed, n):
     # on a coarse summary of the reference time shows up here
     for t in ["monday 3rd", "friday 13th", "the 5th", "tomorrow", "next friday", "8:00", "am 20.", "sunday", "end of month", "mittwoch den 12."]:
         for tsx in ("2020-02-01T09:00:00", "2020-02-10T09:00:00", "2020-02-10T21:30:00", "2020-02-25T00:00:00"):
-            entries.append({"t": t, "ts": tsx, "o": {"latent_time": True, "max_stack_depth": 10, "relative_match_len": 1.0, "scorer": "shipped"}})
+            entries.append({"t": t, "ts": tsx, "grp": "same-month/" + t, "o": {"latent_time": True, "max_stack_depth": 10, "relative_match_len": 1.0, "scorer": "shipped"}})
     # ... and under reference times that share only the year (other months)
     for t in ["tomorrow 2025", "5 march 2024", "1730 uhr", "heute 2020", "morgen 0900", "friday 2030"]:
         for tsx in ("2024-11-10T10:00:00", "2024-03-10T10:00:00", "2019-11-05T08:00:00", "2019-02-05T08:00:00"):
-            entries.append({"t": t, "ts": tsx, "o": {"latent_time": True, "max_stack_depth": 10, "relative_match_len": 1.0, "scorer": "shipped"}})
+            entries.append({"t": t, "ts": tsx, "grp": "same-year/" + t, "o": {"latent_time": True, "max_stack_depth": 10, "relative_match_len": 1.0, "scorer": "shipped"}})
     # the same text in another letter case / with other separators (state keyed on a normalised or lower-cased text)
     for t in ["lunch tomorrow 5pm bob #work", "call anna am freitag um 8 uhr", "report due end of month #q"]:
         for v in (t, t.title(), t.upper(), t.replace(" ", ", ")):
-            entries.append({"t": v, "ts": "2021-03-10T12:43:30", "o": {"latent_time": True, "max_stack_depth": 10, "relative_match_len": 1.0, "scorer": "shipped"}})
+            entries.append({"t": v, "ts": "2021-03-10T12:43:30", "grp": "case-sep/" + t, "o": {"latent_time": True, "max_stack_depth": 10, "relative_match_len": 1.0, "scorer": "shipped"}})
+    # one calendar day whose existence depends on the year, written for years of either kind (a verdict memoised without
+    # the year survives from one call to the next)
+    for t, tsx in [("29.02.2021 10:00", "2021-03-10T12:43:30"), ("29.02.2020 10:00", "2021-03-10T12:43:30"), ("29 feb 2019 9-11 uhr", "2021-03-10T12:43:30"),
+                   ("29.02.2024", "2023-06-01T08:00:00"), ("february 29th 2023 9-5", "2024-01-05T08:00:00"), ("29.02.", "2021-03-10T12:43:30"),
+                   ("29.02.", "2023-12-31T23:00:00"), ("am 29. februar", "2019-02-27T10:00:00"), ("29.02.2023 für 2 tage", "2020-02-29T23:59:59"),
+                   ("29 february 2028 at noon", "2022-04-30T18:05:00")]:
+        entries.append({"t": t, "ts": tsx, "grp": "leap-day", "o": {"latent_time": True, "max_stack_depth": 10, "relative_match_len": 1.0, "scorer": "shipped"}})
     # several labels, one of them written twice, with and without a time expression (anything that passes labels or words
     # through a set shows its dependence on the string-hash seed here)
     for t in ["#family call mom #urgent tomorrow 5pm #phone #family", "#b2 #a1 #c3 #b2 note for bob", "pay rent #home #money #home #q1 am freitag",
@@ -151,6 +158,8 @@ def gen_cases(tier, seed):
     cases = []
     for i in range(60 if tier == "thorough" else 16):
         cases.append(dict(shared, k="history", i=i, n=90))
+    # near-duplicate groups run back to back in one process, forwards and backwards (deterministic adjacency)
+    cases.append(dict(shared, k="groups"))
     # fixed pool entries with the longest solo streams first (10, 5, 10, 14, 4, 3 candidates)
     pairs = [(8, 12), (14, 9), (12, 14), (8, 8), (10, 4), (9, 13), (14, 14), (8, 0), (12, 1), (4, 13), (14, 10), (9, 9)]
     for a, b in (pairs if tier == "thorough" else pairs[:3]):
@@ -279,7 +288,32 @@ def run_case(case, ctx):
         return _history(case, ctx)
     if k == "interleave":
         return _interleave(case, ctx)
+    if k == "groups":
+        return _groups(case, ctx)
     return _threads(case, ctx)
+
+
+def _groups(case, ctx):
+    """every group of near-duplicate entries (same text under reference times that share year/month/day, same text in
+    another case, the leap-day family) back to back in this process, forwards then backwards, against the fresh-process
+    table"""
+    L, mon = ctx["L"], ctx["mon"]
+    entries, ref = case["entries"], case["ref"]
+    groups = {}
+    for i, e in enumerate(entries):
+        if e.get("grp"):
+            groups.setdefault(e["grp"], []).append(i)
+    n = 0
+    for g, idx in sorted(groups.items()):
+        for order in (idx, idx[::-1], idx[1::2] + idx[::2]):
+            for i in order:
+                got = _tuple(L, entries[i])
+                n += 1
+                mon.events["group_call"] += 1
+                if got != ref[str(i)]:
+                    return C.viol("history-dependent-result/near-duplicates", "group %r in the order %s: entry %r gives %r, fresh process gave %r"
+                                  % (g, order, entries[i], got, ref[str(i)]), "groups", "groups")
+    return C.ok("groups", "groups", nt=n > 0, obs_={"groups": len(groups), "calls": n, "names": sorted(groups)[:6]})
 
 
 def _history(case, ctx):
@@ -478,7 +512,7 @@ def _threads(case, ctx):
 
 
 def post_check(results, summaries, events, rules, tier):
-    need = ("history_call", "history_abandoned_stream", "history_failing_call", "schedule_executed", "thread_calls", "overlapping_call_pairs", "fresh_process_table_entries")
+    need = ("history_call", "group_call", "history_abandoned_stream", "history_failing_call", "schedule_executed", "thread_calls", "overlapping_call_pairs", "fresh_process_table_entries")
     miss = [k for k in need if not events.get(k)]
     if miss:
         yield ("inconclusive", "events never observed: %s" % miss)
